@@ -254,10 +254,12 @@ pub fn variant_form(i: usize, name: &str) -> String {
         8 => format!("{name}(u8) = 4"),
         9 => format!("#[a(k = 3)] {name} {{ x: u8 }} = 5"),
         10 => format!("{name}() = 6"),
+        11 => format!("{name} {{ #[a(k = \"bad\", zz)] x: u8 }}"),
+        12 => format!("{name} {{ y: u8, #[a(k = \"bad\", zz)] x: (T, u8) }}"),
         _ => unreachable!(),
     }
 }
-pub const N_VARIANT_FORMS: usize = 11;
+pub const N_VARIANT_FORMS: usize = 13;
 
 pub const GENERICS: [(&str, &str); 7] = [
     ("<T, const N: usize, U: Send, 'a, X = u8>", ""),
@@ -419,6 +421,33 @@ pub fn expectation(entry: &BodyEntry, src: &str) -> Option<Result<Val, Vec<Error
                 _ => return None,
             };
             let base = exp_variant(&v, &entry.magic, &|_, x| x);
+            // receivers that also declare supports(..): the shape verdict belongs to the
+            // attribute layer, so it is reported together with the variant's own attribute
+            // errors and the body is only converted when that layer is clean
+            let base = if let Some(words) = entry.flavor.strip_prefix("supports:") {
+                use darling::util::{Shape, ShapeSet};
+                let set: ShapeSet = words
+                    .split(',')
+                    .flat_map(|w| match w {
+                        "named" => vec![Shape::Named],
+                        "tuple" => vec![Shape::Tuple],
+                        "newtype" => vec![Shape::Newtype],
+                        "unit" => vec![Shape::Unit],
+                        _ => vec![Shape::Named, Shape::Tuple, Shape::Newtype, Shape::Unit],
+                    })
+                    .collect();
+                let (_, mut attr_errs) = attr_layer(&v.attrs);
+                if let Err(e) = set.check(&v.fields) {
+                    attr_errs.insert(0, e);
+                }
+                if attr_errs.is_empty() {
+                    base
+                } else {
+                    Err(attr_errs)
+                }
+            } else {
+                base
+            };
             match entry.flavor.as_str() {
                 "spanned" => base.map(|x| spanned(x, v.span())),
                 "original" => base.map(|x| with_original(x, &v)),
